@@ -742,6 +742,9 @@ class RunCtx:
         out = self.resolver(name)(*args)
         if hasattr(out, "__next__"):
             out = list(out)
+        K = CONTRACTS.get(name) or CONTRACTS.get(f"{name}@{len(args)}")
+        if K is not None and K.returns in ("IntSetGen", "IntSet"):
+            out = {getattr(v, "value", v) for v in out}  # Enum members by their integer value
         return out
 
 
